@@ -1,5 +1,5 @@
 import GixModel.Lemmas.C10c
-import GixModel.Lemmas.C10d
+import GixModel.Lemmas.C10j
 /-
 C10 — Indexing a received pack matches git index-pack.  PROPERTY THEOREMS ONLY.
 
@@ -188,15 +188,87 @@ theorem inject_offsets_consistent_partial (fix : Fix) (odb : Nat → Option (Nat
   · show ((endOf [] first.ofs : Nat) : Int) = (first.ofs : Int) + 0
     simp [endOf]
 
-/-- The rest of (2), stated and NOT proved in general (checked by `decide` on instances, by the driver on
-every generated case, and by `git index-pack` on the pack the real code wrote): in the resolved pack every
-ofs-delta points exactly at the entry of its base — the entry its distance pointed at in the thin pack, or
-the base inserted for a former ref-delta. -/
+/-- The statement of round 1 (then only checked on instances), kept as it was: in the resolved pack every
+ofs-delta points exactly at the entry of its base. It is proved below (`inject_bases_point_at_bases_holds`)
+for every thin pack whose entries are not empty and whose ref-delta headers are a size followed by the
+20 byte id — which every pack satisfies (an entry header alone takes a byte). -/
 def inject_bases_point_at_bases : Prop :=
   ∀ (odb : Nat → Option (Nat × Nat)) (entries : List InEntry) (out : List OutEntry),
     InContig entries →
     (∀ (i : Nat) (e : InEntry) (d : Nat), entries[i]? = some e → e.hdr = Hdr.ofs d → (inputAt entries (e.ofs - d)).isSome = true ∧ 0 < d ∧ d ≤ e.ofs) →
     injectBases Fix.repaired odb entries = some out → basesOk entries out = true
+
+/-- what every pack stream satisfies: no entry is empty, a ref-delta header is the size followed by the
+20 byte id, every ofs-delta distance leads to the start of an earlier entry, objects inserted from the
+object database are not empty either -/
+structure PackShape (odb : Nat → Option (Nat × Nat)) (entries : List InEntry) : Prop where
+  contig : InContig entries
+  pos : ∀ (i : Nat) (e : InEntry), entries[i]? = some e → 0 < e.hsize + e.body
+  ref : ∀ (i : Nat) (e : InEntry) (id : Nat), entries[i]? = some e → e.hdr = Hdr.ref id → e.hsize = sizeLen e.dsize + 20
+  ofs : ∀ (i : Nat) (e : InEntry) (d : Nat), entries[i]? = some e → e.hdr = Hdr.ofs d →
+    (inputAt entries (e.ofs - d)).isSome = true ∧ 0 < d ∧ d ≤ e.ofs
+  odbPos : ∀ id bh bb, odb id = some (bh, bb) → 0 < bh + bb
+
+/-- the state `LookupRefDeltaObjectsIter` ends in satisfies the invariant of Lemmas/C10f -/
+theorem inject_final_invariant (odb : Nat → Option (Nat × Nat)) (first : InEntry) (rest : List InEntry)
+    (hp : PackShape odb (first :: rest)) (out : List OutEntry)
+    (h : injectBases Fix.repaired odb (first :: rest) = some out) :
+    ∃ st n next, st.out = out ∧ BInv (first :: rest) first.ofs st n next := by
+  simp only [injectBases, Option.map_eq_some_iff] at h
+  obtain ⟨st', h', rfl⟩ := h
+  have tk := thinOk_of (first :: rest) hp.contig hp.pos hp.ref hp.ofs
+  obtain ⟨next, hb⟩ := injectFrom_binv (start := first.ofs) tk hp.odbPos (first :: rest) 0 _ st'
+    (fun k => by simp) hp.contig (by simp)
+    (fun e he => by simp at he; rw [← he]; exact binv_init (first :: rest) first) h'
+  exact ⟨st', _, next, rfl, hb⟩
+
+/-- Every re-pointed delta reaches its base — for EVERY thin pack and object database: after the bases
+were inserted, each ofs-delta of the resolved pack points exactly at the entry of the object it was made
+against (the entry its distance led to in the thin pack, or the base inserted for a former ref-delta). -/
+theorem inject_bases_point_at_bases_holds (odb : Nat → Option (Nat × Nat)) (entries : List InEntry)
+    (hp : PackShape odb entries) (out : List OutEntry)
+    (h : injectBases Fix.repaired odb entries = some out) : basesOk entries out = true := by
+  cases entries with
+  | nil => simp [injectBases, injectFrom] at h; subst h; rfl
+  | cons first rest =>
+    obtain ⟨st, n, next, hout, inv⟩ := inject_final_invariant odb first rest hp out h
+    subst hout
+    have tk := thinOk_of (first :: rest) hp.contig hp.pos hp.ref hp.ofs
+    exact basesOk_of tk.strict st.out n inv.srcs inv.pts
+
+/-- Offsets are consistent: the resolved pack has no gaps AND every delta points at its base. -/
+theorem inject_offsets_consistent (odb : Nat → Option (Nat × Nat)) (first : InEntry) (rest : List InEntry)
+    (hp : PackShape odb (first :: rest)) (out : List OutEntry)
+    (h : injectBases Fix.repaired odb (first :: rest) = some out) :
+    contiguous out = true ∧ (∀ o, out.head? = some o → o.ofs = first.ofs) ∧ basesOk (first :: rest) out = true :=
+  ⟨(inject_offsets_consistent_partial Fix.repaired odb first rest hp.contig out h).1,
+   (inject_offsets_consistent_partial Fix.repaired odb first rest hp.contig out h).2,
+   inject_bases_point_at_bases_holds odb (first :: rest) hp out h⟩
+
+/-- Base injection preserves objects, for every input: read the way a pack is read (a delta is applied to
+the object of the entry that starts `distance` bytes before it), every entry of the resolved pack stands
+for the very object the corresponding entry of the thin pack stands for (ref-deltas resolved against the
+object database), and every inserted entry is the object of the database it was inserted for. `decode`,
+`odbObj` and `apply` (inflate, the object database, delta application) are arbitrary. -/
+theorem inject_preserves_objects {V : Type} (odb : Nat → Option (Nat × Nat)) (first : InEntry) (rest : List InEntry)
+    (hp : PackShape odb (first :: rest)) (out : List OutEntry)
+    (h : injectBases Fix.repaired odb (first :: rest) = some out)
+    (sem : Sem V) (val oval : Nat → V) (hin : InVal (first :: rest) sem val) (hout : OutVal out sem oval) :
+    ∀ (p : Nat) (oe : OutEntry), out[p]? = some oe →
+      (∀ j, oe.src = some j → oval p = val j)
+      ∧ (∀ id, oe.src = none → oe.baseId = some id → oval p = sem.odbObj id) := by
+  obtain ⟨st, n, next, hst, inv⟩ := inject_final_invariant odb first rest hp out h
+  subst hst
+  exact preserves_of_binv (thinOk_of (first :: rest) hp.contig hp.pos hp.ref hp.ofs) inv sem val oval hin hout
+
+/-- …and nothing is lost or invented: the resolved pack has exactly one entry per entry of the thin pack,
+in the same order, plus the inserted bases. -/
+theorem inject_keeps_every_entry (odb : Nat → Option (Nat × Nat)) (first : InEntry) (rest : List InEntry)
+    (hp : PackShape odb (first :: rest)) (out : List OutEntry)
+    (h : injectBases Fix.repaired odb (first :: rest) = some out) :
+    ∃ n, out.filterMap (fun o => o.src) = List.range n := by
+  obtain ⟨st, n, next, hst, inv⟩ := inject_final_invariant odb first rest hp out h
+  exact ⟨n, hst ▸ inv.srcs⟩
 
 /-- The thin pack that made the code as found resolve a delta against the wrong base (the base inserted in
 front of a ref-delta takes exactly the 19 bytes the ref-delta's header shrinks by, so the sum of all size
@@ -214,5 +286,42 @@ theorem inject_as_found_points_at_wrong_base :
         (fun out => basesOk cancellingThinPack out && contiguous out) = some true := by decide
 
 example : InContig cancellingThinPack := ⟨rfl, trivial⟩
+
+/-- the hypotheses of the theorems above hold for the pack that broke the code as found … -/
+example : PackShape cancellingOdb cancellingThinPack := by
+  refine ⟨⟨rfl, trivial⟩, ?_, ?_, ?_, ?_⟩
+  · intro i e he
+    match i, he with
+    | 0, he => simp [cancellingThinPack] at he; subst he; decide
+    | 1, he => simp [cancellingThinPack] at he; subst he; decide
+    | i + 2, he => simp [cancellingThinPack] at he
+  · intro i e id he hh
+    match i, he with
+    | 0, he => simp [cancellingThinPack] at he; subst he; decide
+    | 1, he => simp [cancellingThinPack] at he; subst he; cases hh
+    | i + 2, he => simp [cancellingThinPack] at he
+  · intro i e d he hh
+    match i, he with
+    | 0, he => simp [cancellingThinPack] at he; subst he; cases hh
+    | 1, he => simp [cancellingThinPack] at he; subst he; cases hh; decide
+    | i + 2, he => simp [cancellingThinPack] at he
+  · intro id bh bb h
+    simp only [cancellingOdb] at h
+    split at h
+    · cases h; decide
+    · cases h
+
+/-- … and so do `InVal` / `OutVal` for its three output entries (values are the chains of what was applied) -/
+example : InVal cancellingThinPack
+    ({ decode := fun j => [j], odbObj := fun id => [1000 + id], apply := fun v j => v ++ [j] } : Sem (List Nat))
+    (fun j => if j = 0 then [1007, 0] else [1007, 0, 1]) := by
+  intro j e he
+  match j, he with
+  | 0, he => simp [cancellingThinPack] at he; subst he; rfl
+  | 1, he => simp [cancellingThinPack] at he; subst he; exact ⟨0, _, rfl, rfl, rfl⟩
+  | j + 2, he => simp [cancellingThinPack] at he
+
+example : (injectBases Fix.repaired cancellingOdb cancellingThinPack).map (fun out => out.map fun o => (o.ofs, o.hdr, o.src, o.baseId))
+    = some [(12, Hdr.base, none, some 7), (31, Hdr.ofs 19, some 0, none), (104, Hdr.ofs 73, some 1, none)] := by decide
 
 end GixModel.Props.C10
